@@ -162,12 +162,13 @@ PROPS = {
         "assumptions": COMMON_ASSUME,
     },
     "C03": {
-        "rules": ["R-DERIVED-ORDER", "R-BUCKET", "R-FMMAP", "R-NOSORT", "R-BYTEORDER", "R-CLAMP", "R-CMPSIGN", "R-BSEARCH", "R-SCANSIGN", "R-CMPEND", "R-SCANLEN", "R-RESAVE-SCALAR", "R-VBYTE"],
+        "rules": ["R-RANKIDENT", "R-DERIVED-ORDER", "R-BUCKET", "R-FMMAP", "R-NOSORT", "R-BYTEORDER", "R-CLAMP", "R-CMPSIGN", "R-BSEARCH", "R-SCANSIGN", "R-CMPEND", "R-SCANLEN", "R-RESAVE-SCALAR", "R-VBYTE"],
         "explanation": "Order preservation decided structurally: rank operations are the identity / delegate to extract in the seven order-preserving "
                        "kinds, ID arithmetic is consistent with consuming the input in order, FM-index row mapping agrees, and no builder of an "
                        "order-preserving kind reorders its input (no sort reachable on their build paths). "
                        "Added later: unsigned byte order, comparator orientation and search direction (sign-polarity analysis), clamp semantics, match-only-at-end-of-pattern, FM-index scan length.",
-        "decided": ["a scalar member computed from the data by the building path and read by queries/getSize/save is not left at a constant on the load path: it is read back or recomputed (R-DERIVED-ORDER, the order-preserving kinds)",
+        "decided": ["a kind whose rank operations are the identity hands out IDs in input order: nothing on its build path reorders what it stores (R-RANKIDENT; StringDictionaryXBW does - known finding)",
+                    "a scalar member computed from the data by the building path and read by queries/getSize/save is not left at a constant on the load path: it is read back or recomputed (R-DERIVED-ORDER, the order-preserving kinds)",
                     "locateRank is the identity and extractRank delegates to extract (R-BUCKET rank part)", "bucket arithmetic (R-BUCKET)",
                     "FM-index row <-> ID mapping (R-FMMAP)", "no sort on the build path of order-preserving kinds (R-NOSORT)", "comparators order bytes as unsigned, in int (R-BYTEORDER)",
                     "the build loop and the queries use the same (clamped) bucket size, else IDs stop being ranks (R-CLAMP)",
